@@ -160,6 +160,19 @@ func (h *Harness) Execute(spec *RunSpec) (*RunReport, *Outcome, error) {
 	}
 	rep.RefCPUms = cpuMS() - cpu0
 
+	// ---- O6 repeat: a call that was asked to run twice on the very same input objects (alone)
+	for t := range ref {
+		for s, r := range ref[t] {
+			if st := &spec.Tasks[t].Steps[s]; st.Repeat {
+				rep.RepeatChecked++
+				if r.RepeatDiff != "" {
+					rep.Violations = append(rep.Violations, Violation{Class: "repeat", Task: t, Step: s, Op: st.Op,
+						Detail: "the same call on the same input objects, alone, twice in a row: " + r.RepeatDiff, Sig: "repeat:" + opSig(st)})
+				}
+			}
+		}
+	}
+
 	// ---- O4 determinism: the calls that ranged over a map with >= 2 keys, alone again under a
 	// different (legal) map iteration order
 	anyMulti := false
